@@ -805,6 +805,23 @@ def c04_expect(line):
     tag = dict(general=o["app"] if o["app"] is not None else 24, bind=1, ext=24, done=5, entry=4, modify=7)[kind]
     ctrls = []
     added = []
+
+    def snapshot():
+        if kind == "entry":
+            attrs = sorted(o["attrs"], key=lambda a: a[0]) + list(added)
+            parts = ["%s %s" % (n, " ".join([str(len(vs))] + vs)) for n, vs in attrs]
+            return "entry %d %s %s" % (msgid, dn, " ".join([str(len(parts))] + parts)), None
+        oids = []
+        for c in ctrls:
+            if c[0] == "str":
+                oids.append((c[1], c[2]))
+            elif c[0] == "managedsait":
+                oids.append((hx(OIDS[c[0]]), c[1]))
+            else:
+                oids.append((hx(OIDS[c[0]]), "0"))
+        return "result %d %d %d %s %s" % (msgid, tag, code, matched, diag), oids
+
+    writes = []
     for _ in range(t.int()):
         k = t.next()
         if k == "code": code = int16(t.int())
@@ -813,19 +830,9 @@ def c04_expect(line):
         elif k == "ctrls": ctrls = t.controls()
         elif k == "addattr": added.append((t.next(), t.hexlist()))
         elif k == "name": t.next()
-    if kind == "entry":
-        attrs = sorted(o["attrs"], key=lambda a: a[0]) + added
-        parts = ["%s %s" % (n, " ".join([str(len(vs))] + vs)) for n, vs in attrs]
-        return "entry %d %s %s" % (msgid, dn, " ".join([str(len(parts))] + parts)), None
-    oids = []
-    for c in ctrls:
-        if c[0] == "str":
-            oids.append((c[1], c[2]))
-        elif c[0] == "managedsait":
-            oids.append((hx(OIDS[c[0]]), c[1]))
-        else:
-            oids.append((hx(OIDS[c[0]]), "0"))
-    return "result %d %d %d %s %s" % (msgid, tag, code, matched, diag), oids
+        elif k == "write": writes.append(snapshot())     # written now, modified further afterwards
+    writes.append(snapshot())
+    return writes
 
 
 @check("C04")
@@ -844,15 +851,22 @@ def check_c04(tier, seed, res):
         res.nontrivial.add(line.split(" ", 2)[2])
         if " | " not in i:
             res.violation("resp:" + i.split(" ")[0].lower() + ":" + kind, line, i, m, "response could not be built or written"); continue
-        ibytes, iparsed = i.split(" | ")
-        want, oids = c04_expect(line)
-        ok = iparsed.startswith(want + " ") or iparsed == want
-        if ok and oids is not None:
-            tail = iparsed[len(want):].strip().split(" ")
-            got = [(tail[1 + 3 * j], tail[2 + 3 * j]) for j in range(int(tail[0]))] if tail and tail[0] else []
-            ok = got == oids
-        if not ok:
-            res.violation("resp-fields:" + kind, line, i, want, "the LDAPMessage on the wire does not carry the request's id / the constructor's tag / the values set"); continue
+        wants = c04_expect(line)
+        segs = i.split(" || ")
+        bad = len(segs) != len(wants)
+        iparsed = ""
+        for seg, (want, oids) in zip(segs, wants):
+            if bad:
+                break
+            ibytes, iparsed = seg.split(" | ")
+            ok = iparsed.startswith(want + " ") or iparsed == want
+            if ok and oids is not None:
+                tail = iparsed[len(want):].strip().split(" ")
+                got = [(tail[1 + 3 * j], tail[2 + 3 * j]) for j in range(int(tail[0]))] if tail and tail[0] else []
+                ok = got == oids
+            bad = not ok
+        if bad:
+            res.violation("resp-fields:" + kind, line, i, " || ".join(w for w, _ in wants), "the LDAPMessage on the wire does not carry the request's id / the constructor's tag / the values set at the time of the Write"); continue
         if i != m:
             res.mismatch(line, i, m)
         elif res.evaluations % 307 == 1:
@@ -1622,15 +1636,32 @@ def make_life_check(pid, gens):
         life_check(pid, gens, n, tier, seed, res)
         if pid == "C07":
             k1_live(res)
+            # a client that stalls in its TLS handshake on a TLS listener, with bystanders before and after
+            env = dict(GOENV, VERIF_CERTDIR=os.path.join(WORK, "certs"))
+            for how in ("idle", "partial"):
+                p = subprocess.run([VH, "run"], input="c07tlsstall %s %s\n" % (how, how), stdout=subprocess.PIPE, stderr=subprocess.PIPE, text=True, env=env, timeout=120)
+                r = parse_results(p.stdout).get(("c07tlsstall", how), "HARNESS no result")
+                res.evaluations += 1
+                res.nontrivial.add("c07tlsstall " + how)
+                if r.startswith("SPECFAIL"):
+                    res.violation("tls-handshake-stall", "c07tlsstall %s %s" % (how, how), r, "bystanders served", r[9:])
+                elif not r.startswith("OK"):
+                    res.mismatch("c07tlsstall " + how, r, "-")
+                else:
+                    res.sample("c07tlsstall %s  =>  %s" % (how, r))
         res.rule = LIFE_RULES[pid] + "; every scenario is predicted by the LTS (Sys.v, canonical scheduler to quiescence) and forced on a real server in a worker process; after each operation the observed snapshot (ready, Run/Stop returns, port, per connection: id, handlers started/ended, closed, OnClose count) must become and stay the predicted one; one evaluation = one scenario"
     CHECKS[pid] = fn
 
-for _pid, _g in [("C06", ["c06"]), ("C07", ["c07", "c07accept", "c07stall"]), ("C08", ["c08", "c08edges"]), ("C09", ["c09", "c07accept"]), ("C10", ["c10"]), ("C11", ["c11", "c11accept"]), ("C12", ["c12", "c12accept", "c12slowstop"]), ("C13", ["c13"])]:
+for _pid, _g in [("C06", ["c06"]), ("C07", ["c07", "c07accept", "c07stall"]), ("C08", ["c08", "c08edges"]), ("C09", ["c09", "c07accept"]), ("C10", ["c10", "c10busy"]), ("C11", ["c11", "c11accept"]), ("C12", ["c12", "c12accept", "c12slowstop"]), ("C13", ["c13"])]:
     make_life_check(_pid, _g)
 
 
 @check("C05")
 def check_c05(tier, seed, res):
+    # the writer's users and their locks come from the access table regenerated from the source
+    res.broken = []
+    if not ACCESS["ok"] and "writer*" in ACCESS["detail"]:
+        res.broken.append("theorem writer_only_under_mutex / discipline_holds (coq/AccessProofs.v, used by Props/C05.v): " + ACCESS["detail"])
     n = 40 if tier == "quick" else 2000
     cases = gen_cases("c05", seed, n, tier)
     os.makedirs(wd("C05"), exist_ok=True)
